@@ -19,7 +19,9 @@ fuzz_target!(|data: &[u8]| {
     init();
     let (region, _) = fuzzdec::decode_mbi(data, exclude_d16());
     let p = Poisoned::new(&region);
-    let opts = MbiOpts { debug: true, max_steps: region.len() / 8 + 4, typed_all: false };
+    // Debug formatting dominates the run time: do it for a quarter of the inputs
+    let debug = data.first().map_or(true, |b| b & 0x30 == 0);
+    let opts = MbiOpts { debug, max_steps: region.len() / 8 + 4, typed_all: false };
     let mut rec = Rec::new(p.ptr() as usize);
     let loaded = catch(|| unsafe { multiboot2::BootInformation::load(p.ptr().cast()) });
     match loaded {
